@@ -77,6 +77,8 @@ def confirm(pid, result):
     root = common.scratch_root()
     conf = {"reproduced": False, "note": "", "replay_path": ""}
     failing = result.failed[0] if result.failed else None
+    if failing is None and job.native_oracle and result.expected_hit:
+        failing = result.expected_hit[0]
     if getattr(result, "macro_diagnostic", ""):
         # the harness crate itself must fail to build natively with the same macro diagnostic
         env = common.base_env(); env["RUSTFLAGS"] = "--cfg gecs_verif"
